@@ -15,7 +15,7 @@ DESIGN_REF = "DESIGN.md §3 C09"
 RULE = (
     "(a) exhaustive table: 1 or 2 links between one pair (a,b) or on one vertex (a,a), each of 6 link classes x both "
     "orientations, x 7 filters (two of them falsy callable objects); (b) Hypothesis multigraphs (<= 8 vertices, <= 14 links) x edge filters as truth "
-    "tables.  For EVERY ordered pair incl. a is b x direction flag x 3 unknown-handling modes: find_links equals "
+    "tables.  Cases run with neighbor caching off or on (caches warmed first).  For EVERY ordered pair incl. a is b x direction flag x 3 unknown-handling modes: find_links equals "
     "the reference set (NotImplementedError exactly when the reference raises); whenever both calls return its size "
     "equals neighbors(a, FORWARD|ANY, same handling, same filter).count(b); then unlink(a,b) on a generated pair: "
     "find_links(a,b,.) and find_links(b,a,.) are empty for all settings without raising and every other pair's "
@@ -44,11 +44,12 @@ def budget(tier):
 
 def strategy(tier):
     return st.builds(
-        lambda g, f, a, b: {"g": g, "f": f, "unlink": [a % g["nv"], b % g["nv"]]},
+        lambda g, f, a, b, cache: {"g": g, "f": f, "unlink": [a % g["nv"], b % g["nv"]], "cache": cache},
         st.one_of(graphs.graph_descs(), graphs.graph_descs(), graphs.graph_descs(), graphs.eq_graph_descs()),
         graphs.edge_filter_specs,
         st.integers(0, 7),
         st.integers(0, 7),
+        st.booleans(),
     )
 
 
@@ -69,9 +70,10 @@ def enumerate_cases(tier, shard=0, nshards=1):
         for edges, ul in sharded(configs, shard, nshards):
             for f in _FILTERS:
                 yield {"g": {"nv": 3, "vcls": None, "edges": edges + [[0, 1, 2], [1, 2, 0]], "reassign": []}, "f": f, "unlink": ul}
+                yield {"g": {"nv": 3, "vcls": None, "edges": edges + [[0, 1, 2], [1, 2, 0]], "reassign": []}, "f": f, "unlink": ul, "cache": True}
 
     return gen(), (
-        f"all {len(configs) * len(_FILTERS)} rows: 1-2 links between one pair / on one vertex, 6 classes x both "
+        f"all {2 * len(configs) * len(_FILTERS)} rows (each with neighbor caching off and on, caches warmed by plain neighbors() calls first): 1-2 links between one pair / on one vertex, 6 classes x both "
         f"orientations, x 7 edge filters (plus two bystander links whose answers must survive the unlink)"
     )
 
@@ -92,6 +94,13 @@ def fl_table(vs, ls, ff1, li):
 
 
 def check_case(case):
+    from eglib import trav
+
+    with trav.caching(case.get("cache")):
+        return _check_case(case)
+
+
+def _check_case(case):
     from edgegraph.builder import explicit
     from edgegraph.traversal import helpers
 
@@ -108,6 +117,16 @@ def check_case(case):
         classes.add("falsy-callable-filter")
     nt = False
     n = len(vs)
+    if case.get("cache"):
+        classes.add("caching-on")
+        # warm the neighbor caches with plain queries first (find_links must not be misled by them)
+        for v in vs:
+            for d in (0, 1, 2):
+                try:
+                    helpers.neighbors(v, d)
+                    helpers.neighbors(v, d, 1)
+                except NotImplementedError:
+                    pass
     table = fl_table(vs, ls, ff1, li)
     for a in range(n):
         for b in range(n):
